@@ -80,6 +80,10 @@ def build(rng, stratum):
     for ci in range(ncell):
         t = types.fresh()
         m = "m%d" % ci
+        if held and rng.random() < 0.5:
+            # a computed addend on the CELL's own signal type (must reach the loop on the other wire colour)
+            prog.append(["sig", "hc%d" % ci, ["p", ["b", "+", ["v", held[0]], ["n", rng.randint(1, 5)]], t]])
+            held = [h for h in held if not h.startswith("hc")] + ["hc%d" % ci]
         prog.append(["mem", m, t])
         if rng.random() < 0.35:
             # a reader of the cell declared BEFORE the write statement (arithmetic, comparison or alias)
